@@ -34,6 +34,10 @@ func arrOps() []arrOp {
 		x := x
 		add(x+"=[K,K+1,K+2]", false, func(K float64) []*model.N { return st(model.Asg(x, model.Arr(num(K), num(K+1), num(K+2)))) })
 		add(x+"=[]", false, func(K float64) []*model.N { return st(model.Asg(x, model.Arr())) })
+		// one source literal evaluated on every call: results must not share anything
+		add(x+"=mkNested()", false, func(K float64) []*model.N { return st(model.Asg(x, model.CallN("mkNested"))) })
+		add(x+"=mkFlat()", false, func(K float64) []*model.N { return st(model.Asg(x, model.CallN("mkFlat"))) })
+		add(x+"[1][0]=K", false, func(K float64) []*model.N { return st(model.IAsg(model.Idx(id(x), num(1)), num(0), num(K))) })
 		add(x+"[0]=K", false, func(K float64) []*model.N { return st(model.IAsg(id(x), num(0), num(K))) })
 		add(x+"[last]=K", false, func(K float64) []*model.N { return st(model.IAsg(id(x), last(x), num(K))) })
 		add("poke("+x+")", false, func(K float64) []*model.N { return st(model.CallN("poke", id(x), num(K))) })
@@ -108,6 +112,8 @@ const arrStartCount = 3
 func arrProgram(hist []int, ops []arrOp) []*model.N {
 	prog := []*model.N{
 		model.Fun("poke", []string{"z", "v"}, model.ExprS(model.IAsg(model.Id("z"), model.Num(0), model.Id("v")))),
+		model.Fun("mkNested", nil, model.Return(model.Arr(model.Arr(model.Num(1), model.Num(2)), model.Arr(model.Num(3), model.Num(4))))),
+		model.Fun("mkFlat", nil, model.Return(model.Arr(model.Num(5), model.Num(6), model.Num(7)))),
 	}
 	start := 0
 	if len(hist) > 0 {
